@@ -169,6 +169,8 @@ for _i, (_t, _x) in EXT2.items():
     CLAIMS[_i]["technique"] += _t
     CLAIMS[_i]["text"] += _x
 EXT3 = {
+ "C01": ("; per-site byte-order rule", " Added: in a UTF-16LE encoder with several emission sites no site writes byte(u>>8) before byte(u), and the two results of unicode/utf16.EncodeRune are not emitted low surrogate first (positive observation per site; other multi-site layouts are NOT DECIDED)."),
+ "C10": ("; memo-key rule", " Added: no map store m[obj.F] = f(obj) memoises the result of an in-module callee that reads a field of obj other than the key field (a cache keyed by part of what the cached value depends on); a scope tail taken from s[i+k:] with k different from the separator's length and a reverse half-ASCII table that does not invert the alphabet are findings."),
  "C02": ("; fresh-result rule", " Added: no []byte returned by an exported method of the response types is built in the receiver's own storage (two calls would share it)."),
  "C03": ("; header decode on every path; Marshal idempotence on a fresh local block", " Added: the SecurityFeatures bytes are handed to their decoder on every path to a success return of Header.Unmarshal; untraced integer slots of the header are resolved by their bit lanes; an accumulating call on a block freshly constructed in the same Marshal is idempotent."),
  "C04": ("; append-in-place rule", " Added: no encoder appends onto a slice field of its receiver without storing the result back (the backing array may be shared with the caller)."),
